@@ -101,6 +101,65 @@ def run(F, chk):
                               "%s changes the skin partition list (%s) but %s: body-part labels no longer line up with the partitions" % (
                                   fn["name"], kind, why))
     chk.floor(R1, 5)
+
+    # ---------------------------------------------------------------- R10.2
+    R2 = chk.rule("R10.2", "in the functions that edit the partition list, a block guarded by the dismember type test changes only "
+                           "the dismember instance (and its own locals): the partitioning algorithm itself must not depend on "
+                           "which kind of skin instance the shape has")
+    for fn in sorted(F.fns.values(), key=lambda f: f["id"]):
+        if fn.get("cls") != NIF or fn.get("tmpl") == "pattern" or not ops(fn, SKINPART):
+            continue
+        # locals holding a dismember instance
+        dvars = set()
+        for n in walk(fn["body"]):
+            vs = n.get("vars", []) if n["k"] == "Decl" else ([n["var"]] if n["k"] in ("If", "While") and n.get("var") else [])
+            for v in vs:
+                if "BSDismemberSkinInstance" in (v.get("ct") or v.get("t") or ""):
+                    dvars.add(v["id"])
+        for blk in walk(fn["body"]):
+            if blk["k"] != "If" or not is_node(blk.get("cond")):
+                continue
+            c = blk["cond"]
+            guarded_var = None
+            if c["k"] == "Ref" and c.get("id") in dvars:
+                guarded_var = c["id"]
+            if guarded_var is None:
+                continue
+            inner_decls = set()
+            for x in walk(blk["then"]):
+                if x["k"] == "Decl":
+                    inner_decls |= {v["id"] for v in x.get("vars", [])}
+                if x["k"] == "RangeFor":
+                    inner_decls.add(x["var"]["id"])
+            bad = []
+            for x in walk(blk["then"]):
+                tgt = None
+                if x["k"] == "Assign":
+                    tgt = x["l"]
+                elif x["k"] == "Unary" and x["op"] in ("++", "--"):
+                    tgt = x["e"]
+                if tgt is None:
+                    continue
+                root = tgt
+                while is_node(root) and root["k"] in ("Member", "Subscript", "Cast", "Unary", "OpCall", "Call"):
+                    if root["k"] in ("Member", "Subscript"):
+                        root = root.get("base")
+                    elif root["k"] in ("Cast", "Unary"):
+                        root = root.get("e")
+                    elif root["k"] == "OpCall":
+                        root = (root.get("args") or [None])[0]
+                    else:
+                        root = root.get("recv")
+                if is_node(root) and root["k"] == "Ref" and root.get("rk") in ("local", "param"):
+                    if root["id"] == guarded_var or root["id"] in inner_decls or root["id"] in dvars:
+                        continue
+                    bad.append((x, root["name"]))
+            chk.instance(R2, ok=not bad, sample={"fn": fn["name"], "guard": show(c), "outer_variables_changed": [b[1] for b in bad]})
+            for x, name in bad[:1]:
+                chk.violation("R10.2", "C10/R10.2:%s:%s" % (fn["name"], name), where(fn, x),
+                              "%s changes `%s` inside a block that only runs for BSDismemberSkinInstance: with a plain NiSkinInstance "
+                              "the partitioning algorithm takes a different course" % (fn["name"], name))
+    chk.floor(R2, 3)
     chk.assumptions += ["exact cover of triangles, the per-game bone limit and weights summing to one are value-level and not decided"]
     chk.extra["explanation"] = ("only the clause 'the dismember partition list stays aligned with the partitions' is decided "
                                 "(sibling agreement of partition-list edits); everything numeric in C10 is not decided")
